@@ -3,6 +3,7 @@ implementation runner and the independent finite-universe membership oracle.
 
 Import only after common.bootstrap_pytype() (pytype.pytd.base_visitor imports the C++ typegraph).
 """
+import collections
 import itertools
 
 from pytype.pytd import optimize
@@ -118,7 +119,7 @@ class Gen:
     if x < 0.24:
       return self.ref(1)
     if x < 0.31:
-      if self.kind == "n" and r.random() < 0.3:
+      if self.kind == "n" and self.allow_named_none and r.random() < 0.3:
         return pytd.NamedType("NoneType")
       return self.ref(2)
     if x < 0.38:
@@ -571,8 +572,8 @@ def value_universe(r, class_names, generic_arity, n_extra=120):
     for _ in range(4):
       level1.append(V("tup", [r.choice(atoms) for _ in range(n)]))
   for ar in (0, 1, 2):
-    for _ in range(2):
-      level1.append(V("fn", ar, r.choice(atoms)))
+    for a in atoms:                       # every class as a result, at every arity
+      level1.append(V("fn", ar, a))
   vals = list(level1)
   for _ in range(n_extra):
     x = r.random()
@@ -587,11 +588,21 @@ def value_universe(r, class_names, generic_arity, n_extra=120):
   return vals
 
 
+SKIPPED = collections.Counter()     # positions the oracle could not judge (node kinds outside its semantics)
+
+
 def narrowing_witness(orc, before, after, values):
-  """First value admitted by `before` but not by `after` (None if none in the universe)."""
-  for v in values:
-    if orc.admits(before, v) and not orc.admits(after, v):
-      return v
+  """First value admitted by `before` but not by `after` (None if none in the universe).
+  Unchanged types are trivially fine; a changed type containing nodes outside the oracle's semantics
+  (TypeParameter, ...) is counted in SKIPPED."""
+  if before is after or repr(before) == repr(after):
+    return None
+  try:
+    for v in values:
+      if orc.admits(before, v) and not orc.admits(after, v):
+        return v
+  except Unsupported as e:
+    SKIPPED[str(e)] += 1
   return None
 
 
@@ -627,14 +638,32 @@ def sig_covered(orc, s, s2, values):
 
 def func_narrowing(orc, f, f2, values):
   for s in f.signatures:
-    why = None
+    reasons = []
     for s2 in f2.signatures:
       why = sig_covered(orc, s, s2, values)
       if why is None:
+        reasons = None
         break
-    if why is not None:
-      return "signature %d of %s not covered (%s)" % (f.signatures.index(s), f.name, why)
+      reasons.append(why)
+    if reasons is not None:
+      best = [w for w in reasons if w != "shape"] or ["no signature with these parameters is left"]
+      return "signature %d of %s not covered (%s)" % (f.signatures.index(s), f.name, best[0])
   return None
+
+
+def narrowing_kind(why):
+  """Coarse, stable class of a narrowing: which kind of position lost a value."""
+  if "(param " in why:
+    return "parameter"
+  if "(mutated " in why:
+    return "mutated-parameter"
+  if "(return" in why:
+    return "return"
+  if "constant" in why:
+    return "constant"
+  if why.startswith("type loses"):
+    return "bare-type"
+  return "signature-lost"
 
 
 def unit_narrowing(orc, u, u2, values, skip_self_in_classes=False):
@@ -667,3 +696,14 @@ def unit_narrowing(orc, u, u2, values, skip_self_in_classes=False):
       if why:
         return "class %s: %s" % (c.name, why)
   return None
+
+
+def universe_oracle(uni, seed_rng):
+  """(Oracle, values) for a generated Universe; deterministic in (universe, rng) so that replay sees
+  exactly the values the run saw."""
+  table = {uni.names[k]: [uni.names[b] for b in v] for k, v in uni.bases.items()}
+  orc = Oracle(subclass_closure(table))
+  arity = {uni.names[k]: v for k, v in GENERIC_BASES.items()}
+  arity.update({uni.names[USER_IDS[0]]: 1, uni.names[USER_IDS[1]]: 1, "builtins.tuple": 1})
+  vals = value_universe(seed_rng, [uni.names[k] for k in uni.class_ids()], arity, n_extra=90)
+  return orc, vals
